@@ -127,13 +127,20 @@ Definition lbc (p : prog) : N := N.max (lb p) (lc p).
 (* ---- the read, transcribed from ReadWithContext's call graph ---- *)
 
 (* one indirect object read from the file: model.object (read.go) =
-   buffer() [1 + ob exit polls: buffer:2095 (the loop runs at least once) + DetectKeywordsWithContext], then
+   buffer() [one pass per growth of the buffer (the loop runs at least once): the poll at the head of
+   buffer()'s loop, then the scan loop of model.DetectKeywordsWithContext which polls ONCE PER ITERATION
+   (one iteration per string literal / comment skipped before endobj/stream is decided):
+   od0 = iterations of the first pass, odrest = iterations of the further passes], then
    model.ParseObjectContext [ok exit polls in processDictKeys, inside the Retry],
    then (stream dicts) loadStreamDict -> ensureIndirectStreamLength -> int64Object
    [op exit polls of the nested object read].  obig: "endobj" not inside the buffer (endInd < 0). *)
-Record fobj := mkfo { ob : nat; ok_ : nat; op : nat; obig : bool }.  (* obig is informative only *)
+Record fobj := mkfo { od0 : nat; odrest : list nat; ok_ : nat; op : nat; obig : bool }.  (* obig is informative only *)
 
-Definition buffer_polls (o : fobj) : prog := Seq Poll (pollsN (ob o)).
+(* parse.go DetectKeywordsWithContext: for { if err := c.Err(); err != nil { return } ; skip one literal/comment } *)
+Definition scan (iters : nat) : prog := pollsN iters.
+(* read.go buffer(): for endInd < 0 && streamInd < 0 { poll; grow; DetectKeywordsWithContext(...) } *)
+Definition pass (d : nat) : prog := Seq Poll (scan d).
+Definition buffer_polls (o : fobj) : prog := Seq (pass (od0 o)) (seqs (map pass (odrest o))).
 Definition parse_obj (o : fobj) : prog :=
   Seq (buffer_polls o) (Retry (pollsN (ok_ o)) (pollsN (ok_ o)) Skip).
 
